@@ -485,12 +485,17 @@ KIND_EXPRS = {
     "boolsum": "((j.pt() > 1.5) + (j.eta() < 2.0))", "boolprod": "(j.isGood() * j.isGood())", "boolneg": "(-j.isGood())",
     "intdiv": "(j.nTrk() / j.nTrk())", "boolcmpdiff": "((j.pt() > 1.5) - (j.eta() > 1.5))", "notint": "(not j.nTrk())",
     "floatsum": "(j.ptf() + j.ptf())", "mixed": "(j.ptf() + j.nTrk())", "pow": "(j.nTrk() ** 2)",
+    # float literals whose value is a whole number stay floating (2.0 is not 2), alone and combined with integers
+    "wholeflt_add": "(j.nTrk() + 1.0)", "wholeflt_mul": "(j.nTrk() * 2.0)", "wholeflt_sub": "(3.0 - j.nTrk())", "wholeflt_lit": "2.0",
+    "wholeflt_exp": "(j.nTrk() * 1e3)", "wholeflt_bool": "(j.isGood() + 1.0)", "fltlit": "2.5", "intlit": "2", "boollit": "True",
 }
 EVENT_KIND_EXPRS = {
     "count": "e.PRIM('A').Count()", "sumd": "e.PRIM('A').Select(lambda j: j.pt()).Sum()",
     "sumi": "e.PRIM('A').Select(lambda j: j.nTrk()).Sum()", "cmp": "e.PRIM('A').Count() > 1",
     "div": "e.PRIM('A').Count() / 2",
     "boolsum": "((e.PRIM('A').Count() > 2) + (e.PRIM('A').Count() > 4))", "countdiv": "e.PRIM('A').Count() / e.PRIM('A').Count()",
+    "count_wholeflt": "e.PRIM('A').Count() * 2.0", "count_plus_wholeflt": "e.PRIM('A').Count() + 1.0", "wholeflt_lit": "1.0",
+    "sumi_wholeflt": "e.PRIM('A').Select(lambda j: j.nTrk()).Sum() - 3.0",
 }
 
 
@@ -631,6 +636,10 @@ def c04_programs(backend, tier):
         "({X} > 1.5 and {G})",                        # guard too late: loud fault expected
         "(({G}) and ({X} > 1.5 or {X} < 0))",
         "({X} + 1 if {G} and {X} > 0 else -1.0)",
+        # a boolean literal among the operands (a captured python flag): python still evaluates what stands in front of it
+        "({X} > 1.5 or True)", "({X} > 1.5 and False)", "(True and {X} > 1.5)", "(False or {X} > 1.5)",
+        "(False and {X} > 1.5)", "(True or {X} > 1.5)", "({G} and True and {X} > 1.5)", "(({G}) and ({X} > 1.5 or True))",
+        "(1.0 if ({X} > 1.5 or True) else 0.0)",
     ]
     ekeys = list(partial_e)
     for i, (k, (x, g)) in enumerate(partial_e.items()):
@@ -709,9 +718,15 @@ def c12_programs(backend, names=None):
         inner[0] = "fabs(j.pt())"
         nest_in = f"{fn}({', '.join(inner)})"
         allint = f"{fn}({', '.join(['j.nTrk()', '2', '3'][:ar])})"
-        for form, tag in ((call, "standalone"), (f"{call} * 2 + 1", "arith"), (f"{call} > 0.5", "compare"),
+        lit_forms = []
+        for li, lits in enumerate((["0.5", "1.5", "2.5"], ["2.5", "0.5", "1.5"], ["-2.5", "1.5", "0.5"], ["2", "3", "1"])):
+            la = lits[:ar]
+            if int_second and len(la) > 1:
+                la[1] = "2"
+            lit_forms.append((f"{fn}({', '.join(la)}) * j.pt() + 1", f"literal-args{li}"))
+        for form, tag in [(call, "standalone"), (f"{call} * 2 + 1", "arith"), (f"{call} > 0.5", "compare")] + lit_forms + [
                           (icall, "intarg"), (f"1.5 - {call} / 2", "arith2"), (f"sqrt({call})", "nested-outer"), (nest_in, "nested-inner"),
-                          (allint, "allint"), (f"{allint} / 2", "allint-div")):
+                          (allint, "allint"), (f"{allint} / 2", "allint-div")]:
             q = f"Select(EventDataset('ds'), lambda e: e.{P}('A').Select(lambda j: {form}))"
             out.append(make_program(q, backend, label=fn, tags=("math:" + fn, tag)))
     q = f"Select(EventDataset('ds'), lambda e: e.{P}('A').Select(lambda j: j.pt() ** 2))"
@@ -724,7 +739,9 @@ def c12_programs(backend, names=None):
 
 
 # ------------------------------------------------------------------ C13: operator x operand-kind table
-OPERAND = {"intlit": "2", "intcount": "e.PRIM('A').Count()", "intm": "j.nTrk()", "float": "j.ptf()", "double": "j.pt()", "bool": "j.isGood()"}
+OPERAND = {"intlit": "2", "intcount": "e.PRIM('A').Count()", "intm": "j.nTrk()", "float": "j.ptf()", "double": "j.pt()", "bool": "j.isGood()",
+           "fltwhole": "2.0", "fltlit": "2.5"}
+LITERAL_KINDS = ("intlit", "fltwhole", "fltlit")
 
 
 def c13_programs(backend, tier):
@@ -739,8 +756,10 @@ def c13_programs(backend, tier):
     for op in ops:
         for ka, a in OPERAND.items():
             for kb, b in OPERAND.items():
-                if ka == "intlit" and kb == "intlit":
+                if ka in LITERAL_KINDS and kb in LITERAL_KINDS:
                     continue
+                if op == "%" and (ka in ("fltwhole", "fltlit") or kb in ("fltwhole", "fltlit")):
+                    continue            # '%' with a real operand is KF-mod-real-operand whatever the literal
                 add(f"{a} {op} {b}", ("binop", op, ka, kb))
     # aggregate seeds that are computed by the query itself (known finding KF-aggregate-computed-seed)
     for seed in ("e.PRIM('A').Count()", "e.PRIM('A').Count() + 1", "e.PRIM('A').Select(lambda k: k.pt()).Sum()"):
@@ -754,7 +773,7 @@ def c13_programs(backend, tier):
     for expr in ("j.nTrk() ** 2", "j.nTrk() ** 3", "j.nTrk() ** 2 / 2.0", "(j.nTrk() ** 2) > 1.5", "j.nTrk() ** j.nTrk()"):
         add(expr, ("pow", "wideint"))
     for ka, a in OPERAND.items():
-        if ka == "intlit":
+        if ka in LITERAL_KINDS:
             continue
         add(f"-{a}", ("unary", "-", ka))
         add(f"+{a}", ("unary", "+", ka))
@@ -762,7 +781,9 @@ def c13_programs(backend, tier):
     for cmp in ["<", "<=", ">", ">=", "==", "!="]:
         for ka, a in OPERAND.items():
             for kb, b in OPERAND.items():
-                if ka == "intlit" and kb == "intlit":
+                if ka in LITERAL_KINDS and kb in LITERAL_KINDS:
+                    continue
+                if tier == "quick" and (ka in ("fltwhole", "fltlit") or kb in ("fltwhole", "fltlit")) and cmp not in ("<", "=="):
                     continue
                 if tier == "quick" and cmp in ("<=", ">=", "!=") and not (ka == "double" or kb == "double"):
                     continue
@@ -770,6 +791,27 @@ def c13_programs(backend, tier):
     for ka, a in OPERAND.items():
         for kb, b in OPERAND.items():
             add(f"({a} if j.eta() > 0 else {b})", ("cond", ka, kb))
+    # grouping: every pair of binary operators in both groupings keeps the query's grouping (shared with C01)
+    for q in _precedence_family() + [
+            "Select(EventDataset('ds'), lambda e: e.PRIM('A').Select(lambda j: j.pt() / (2 * 1000)))",
+            "Select(EventDataset('ds'), lambda e: e.PRIM('A').Select(lambda j: j.nTrk() % (2 * 2)))",
+            "Select(EventDataset('ds'), lambda e: e.PRIM('A').Select(lambda j: e.PRIM('A').Count() / (j.nTrk() * 2 + 1)))",
+            "Select(EventDataset('ds'), lambda e: e.PRIM('A').Select(lambda j: j.pt() - (j.eta() - (j.phi() - 1))))",
+            "Select(EventDataset('ds'), lambda e: e.PRIM('A').Select(lambda j: j.pt() / (j.eta() / (j.phi() / 3))))",
+            "Select(EventDataset('ds'), lambda e: e.PRIM('A').Select(lambda j: 2 ** (j.nTrk() ** 2) - (1 - j.pt())))"]:
+        out.append(make_program(q.replace("PRIM", P), backend, tags=("precedence",)))
+    # "a conditional yields its arm's value" when the test / an arm needs statements of its own (First, filters, aggregates)
+    for expr in ("1 if e.PRIM('A').First().pt() > 1.5 else 2",
+                 "e.PRIM('A').First().pt() if e.PRIM('A').Where(lambda j: j.pt() > 1.5).First().eta() < 0.25 else -1.0",
+                 "1.5 if e.PRIM('A').Where(lambda j: j.pt() > 1.5).Count() > 1 else e.PRIM('A').Count()",
+                 "(1 if e.PRIM('A').First().pt() > 1.5 else 2) + (3 if e.PRIM('A').Count() > 1 else 4)",
+                 "e.PRIM('A').Select(lambda j: j.pt()).Sum() if e.PRIM('A').Select(lambda j: j.eta()).Sum() > 0 else e.PRIM('A').Count()"):
+        q = f"Select(Where(EventDataset('ds'), lambda e: e.PRIM('A').Count() > 0), lambda e: {expr})".replace("PRIM", P)
+        out.append(make_program(q, backend, tags=("cond", "deep-test")))
+    for expr in ("1 if j.vals().First() > 1.5 else 2", "j.pt() if j.vals().Where(lambda v: v > 1.5).Count() > 0 else j.eta()",
+                 "(j.vals().First() if j.vals().Count() > 1 else 0.5) * 2", "j.nTrk() if j.vals().Sum() > 1.5 else j.nTrk() + 1"):
+        q = f"Select(EventDataset('ds'), lambda e: e.PRIM('A').Where(lambda j: j.vals().Count() > 0).Select(lambda j: {expr}))".replace("PRIM", P)
+        out.append(make_program(q, backend, tags=("cond", "deep-test")))
     # aggregates: accumulators at least as wide as what is folded in
     elems = {"intm": "j.nTrk()", "float": "j.ptf()", "double": "j.pt()", "mixed": "j.nTrk() + j.pt()", "divi": "j.nTrk() / 2"}
     for ke, x in elems.items():
@@ -858,7 +900,9 @@ def c18_programs(backend):
             out.append(make_program(f"Select(EventDataset('ds'), lambda e: ({k}, 1, e.PRIM('A').Count()))".replace("PRIM", P), backend, tags=tags))
     # strings with sequences that mean something to C++ / to a line-based emitter, in the positions whose text is pasted into a
     # verbatim C++ statement (bank name; attribute name on ATLAS); the string must arrive character for character
-    curated = ["a // b", "root://x//y", " //", "a /* b", "*/", "a;b", "a; //", "%d %s", "{{x}}", "{% y %}", "#include", "a\\", "??/", "a\"b", "\\n", "'", "a  b", " lead", "trail ", "//", "/"]
+    curated = ["a // b", "root://x//y", " //", "a /* b", "*/", "a;b", "a; //", "%d %s", "{{x}}", "{% y %}", "#include", "a\\", "??/", "a\"b", "\\n", "'", "a  b", " lead", "trail ", "//", "/",
+               # characters outside ASCII: the file on disk must carry them (UTF-8), not an escape that denotes other bytes
+               "Jets_\u00b5", "\u00e9t\u00e9", "\u00ff", "\u0080", "\u03c0\u03c4", "\u65e5\u672c", "\U0001f600x", "a\x7fb"]
     for st in curated:
         lit = repr(st)
         out.append(make_program(f"Select(EventDataset('ds'), lambda e: e.PRIM({lit}).Count())".replace("PRIM", P), backend, tags=("literals", "string")))
@@ -866,6 +910,9 @@ def c18_programs(backend):
         if backend == "atlas":
             out.append(make_program(f"Select(EventDataset('ds'), lambda e: e.PRIM('A').Select(lambda j: j.getAttributeFloat({lit})))".replace("PRIM", P), backend, tags=("literals", "string")))
             out.append(make_program(f"Select(EventDataset('ds'), lambda e: e.PRIM('A').Select(lambda j: j.getAttributeFloat({lit}) + j.getAttributeFloat('other')))".replace("PRIM", P), backend, tags=("literals", "string")))
+    for tn, cols in (("tr\u00e9\u00e9_\u00b5", ("pt_\u00b5", "n\u00e9")), ("\u03c0", ("\u65e5", "\u00ff"))):
+        out.append(make_program(f"ResultTTree(Select(EventDataset('ds'), lambda e: (e.PRIM('A').Select(lambda j: j.pt()), e.PRIM('A').Count())), {cols!r}, {tn!r}, 'f.root')".replace("PRIM", P),
+                                backend, tags=("literals", "string", "names")))
     # negative literals, as source text (-5 = unary minus of 5) and as the single constant node a captured python
     # variable becomes ('fold_neg'), in every operator context: the literal must not fuse with what precedes it
     negs = ["-5", "-1.5", "-0.0", "-2147483647", "-2147483648", "-1e-05"]
